@@ -7,7 +7,26 @@ from .. import families
 FOREIGN = ["int", "none", "str", "other_family_file", "list", "elem"]
 
 
-def build(fam, seq, as_file, noise=0):
+WRAPS = ["generic", "declared", "revision", "sibling"]
+_file_classes = {}
+
+
+def file_class(fam, wrap):
+    """the file class that wraps a container: the family's generic file class (RegisterFile / BlockFile / SectionFile), a
+    declared format (a subclass that lists the element classes), a revision of that format (a subclass of the declared
+    format that changes nothing), or a sibling format (another direct subclass declaring the same element classes)"""
+    if (fam, wrap) not in _file_classes:
+        F = families.get(fam)
+        ns = {F["list_attr"]: list(families.elem_classes(fam)), "__slots__": []}
+        decl = type(fam + "Declared", (F["File"],), dict(ns))
+        _file_classes[(fam, "generic")] = F["File"]
+        _file_classes[(fam, "declared")] = decl
+        _file_classes[(fam, "revision")] = type(fam + "Revision", (decl,), {"__slots__": []})
+        _file_classes[(fam, "sibling")] = type(fam + "Sibling", (F["File"],), dict(ns))
+    return _file_classes[(fam, wrap)]
+
+
+def build(fam, seq, as_file, noise=0, wrap="generic"):
     F = families.get(fam)
     # type 4 is the framework's own default component (DefaultRegister / DefaultBlock / DefaultSection, with their own __eq__)
     T = families.elem_classes(fam) + [F["Default"]]
@@ -38,7 +57,7 @@ def build(fam, seq, as_file, noise=0):
             x = T[2](data=[7])
             c.append(x)
             c.remove(x)
-    return F["File"](c) if as_file else c
+    return file_class(fam, wrap)(c) if as_file else c
 
 
 CARRIER = {1: 1, 2: 0.3, 3: 0.1 + 0.2}
@@ -90,7 +109,8 @@ class CHECK(Check):
             "write identical output. non-trivial = the two sequences differ in at most one position or are prefix-related; "
             "distinct = case hash"
             " Later additions: register elements use the library's own Register.__eq__; half of the cases apply sequence-preserving operations (remove a non-member, remove twice and re-append, append+remove) before comparing; delimited register types in the read-twice part."
-            " Object histories: 40% of the random pairs and a seventh of the exhaustive ones are reached through 1-3 earlier states of the two objects (other data at 1-2 positions of one or both sides, sometimes a trailing element more or less), each state compared (==, reflected, !=, and each object with itself) and then edited IN PLACE into the next one (data[0] = v as a property setter does, data[:] = [v], or .data = [v]; tail elements removed/appended); every earlier comparison is judged element-wise too, and the final object is also compared with a freshly built equal one. Half of the read-twice files are, after being compared, edited in place (one value of one register blanked in the first file: unequal; then in the second: equal again, identical output).")
+            " Object histories: 40% of the random pairs and a seventh of the exhaustive ones are reached through 1-3 earlier states of the two objects (other data at 1-2 positions of one or both sides, sometimes a trailing element more or less), each state compared (==, reflected, !=, and each object with itself) and then edited IN PLACE into the next one (data[0] = v as a property setter does, data[:] = [v], or .data = [v]; tail elements removed/appended); every earlier comparison is judged element-wise too, and the final object is also compared with a freshly built equal one. Half of the read-twice files are, after being compared, edited in place (one value of one register blanked in the first file: unequal; then in the second: equal again, identical output)."
+            " File classes: half of the random file pairs, a sixth of the exhaustive ones and the foreign cases wrap the two containers in two file classes of the family drawn independently from {generic RegisterFile/BlockFile/SectionFile, a declared format, a revision (subclass) of it, a sibling format with the same declaration}; the freshly built equal file takes the class of the other side; 40% of the read-twice cases make the second reading through a revision or a sibling of the first file class. Equality is judged on the element sequences alone.")
     not_exhibited = ["foreign right-hand sides and read-twice/write-equal are checked by the direct oracle only "
                      "(the model covers container-vs-container comparison)",
                      "in a case with a history the model gives the measured (last) comparison; the comparisons made on the earlier "
@@ -130,6 +150,9 @@ class CHECK(Check):
                 c = {"fam": families.FAMILIES[i % 3], "xs": [list(x) for x in xs], "ys": [list(y) for y in ys],
                      "file": i % 2 == 0, "kind": "exh"}
                 yield c
+                if i % 6 == 0:
+                    # the same pair of sequences held by files of two (possibly different) file classes of the family
+                    yield dict(c, wrap=[WRAPS[(i // 6) % 4], WRAPS[(i // 24) % 4]])
                 if i % 7 == 0:
                     # the same pair reached through a history of compared-and-edited earlier states
                     yield dict(c, hist=self.history(rng, c["xs"], c["ys"]))
@@ -160,6 +183,9 @@ class CHECK(Check):
             c = {"fam": rng.choice(families.FAMILIES), "xs": xs, "ys": ys, "file": rng.random() < 0.5, "kind": k}
             if rng.random() < 0.4:
                 c["hist"] = self.history(rng, xs, ys)
+            if c["file"] and rng.random() < 0.5:
+                # the two files are instances of two file classes of the family (generic, declared format, revision of it, sibling)
+                c["wrap"] = [rng.choice(WRAPS), rng.choice(WRAPS)]
             yield c
         # the same content read twice gives equal files, and equal files write identical output
         from .. import reglib
@@ -174,11 +200,19 @@ class CHECK(Check):
                 # after the two files were compared, one value of one register of the first is blanked in place (the files must
                 # differ now), then the same value of the second (they must be equal again and write the same output)
                 c["edit"] = {"pos": rng.randrange(64), "field": rng.randrange(64), "how": rng.choice(EDITS)}
+            if rng.random() < 0.4:
+                # the second reading is made through a revision (subclass that changes nothing) or a sibling (same declaration) of
+                # the file class of the first
+                c["wrap"] = rng.choice(["revision", "sibling"])
             yield c
         for fam in families.FAMILIES:
             for f in FOREIGN:
                 for as_file in (False, True):
                     yield {"fam": fam, "xs": [[0, 1], [2, 2]], "ys": None, "foreign": f, "file": as_file, "kind": "foreign"}
+                    if as_file:
+                        for w in WRAPS[1:]:
+                            yield {"fam": fam, "xs": [[0, 1], [2, 2]], "ys": None, "foreign": f, "file": True, "kind": "foreign",
+                                   "wrap": [w, w]}
 
     def impl(self, case):
         if case.get("kind") == "readtwice":
@@ -186,8 +220,10 @@ class CHECK(Check):
             from .. import reglib
             regs = reglib.mk_register_classes(case["regdefs"])
             F = reglib.mk_file_class(regs)
+            G = {None: F, "revision": type(F.__name__ + "Rev", (F,), {"__slots__": []}),
+                 "sibling": reglib.mk_file_class(regs)}[case.get("wrap")]
             try:
-                a, b = F.read(case["content"]), F.read(case["content"])
+                a, b = F.read(case["content"]), G.read(case["content"])
                 import math
                 for e in a.data:
                     d = e.data if isinstance(e.data, list) else []
@@ -234,30 +270,31 @@ class CHECK(Check):
         h = int(hashlib.sha1(json.dumps(case, sort_keys=True).encode()).hexdigest(), 16)
         na, nb = (h % 4, (h >> 3) % 4) if h & 64 else (0, 0)    # half of the cases: sequence-preserving operations before comparing
         hist = case.get("hist")
+        wa, wb = case.get("wrap") or ("generic", "generic")
         if hist:
             # the two objects start in the first earlier state; each state is compared (also each object with itself, which walks
             # all of its elements) and then edited in place into the next one, the last edit leading to xs / ys
             st = hist["steps"]
-            a = build(case["fam"], st[0]["xs"], case["file"], na)
-            b = build(case["fam"], st[0]["ys"], case["file"], nb)
+            a = build(case["fam"], st[0]["xs"], case["file"], na, wa)
+            b = build(case["fam"], st[0]["ys"], case["file"], nb, wb)
             seen = []
             for k, cur in enumerate(st):
                 seen.append({"ab": bool(a == b), "ba": bool(b == a), "ne": bool(a != b), "aa": bool(a == a), "bb": bool(b == b)})
                 nxt = st[k + 1] if k + 1 < len(st) else case
                 move(a, cur["xs"], nxt["xs"], case["fam"], hist["edit"])
                 move(b, cur["ys"], nxt["ys"], case["fam"], hist["edit"])
-            a2 = build(case["fam"], case["xs"], case["file"])
+            a2 = build(case["fam"], case["xs"], case["file"], 0, wb)
             return {"ab": bool(a == b), "ba": bool(b == a), "ne": bool(a != b), "aa": bool(a == a), "aa2": bool(a == a2),
                     "again": bool(a == b), "hist": seen}
-        a = build(case["fam"], case["xs"], case["file"], na)
+        a = build(case["fam"], case["xs"], case["file"], na, wa)
         if case["ys"] is None:
             f = case["foreign"]
             other = families.FAMILIES[(families.FAMILIES.index(case["fam"]) + 1) % 3]
             b = {"int": 3, "none": None, "str": "x", "list": [1], "elem": families.elem_classes(case["fam"])[0](data=[1]),
-                 "other_family_file": build(other, case["xs"], True)}[f]
+                 "other_family_file": build(other, case["xs"], True, 0, wb)}[f]
             return {"ab": bool(a == b), "ba": bool(b == a), "ne": bool(a != b)}
-        b = build(case["fam"], case["ys"], case["file"], nb)
-        a2 = build(case["fam"], case["xs"], case["file"])
+        b = build(case["fam"], case["ys"], case["file"], nb, wb)
+        a2 = build(case["fam"], case["xs"], case["file"], 0, wb)
         return {"ab": bool(a == b), "ba": bool(b == a), "ne": bool(a != b), "aa": bool(a == a), "aa2": bool(a == a2),
                 "again": bool(a == b)}
 
@@ -342,6 +379,12 @@ class CHECK(Check):
                 d["history_unequal_then_equal"] = 1
         if case.get("edit"):
             d["readtwice_edited_after_comparing"] = 1
+        w = case.get("wrap")
+        if w and case.get("kind") == "readtwice":
+            d["readtwice_second_reading_through_" + w] = 1
+        elif w and case.get("file"):
+            d["file_classes_%s_vs_%s" % tuple(w)] = 1
+            d["file_classes_differ" if w[0] != w[1] else "file_classes_same"] = 1
         return d
 
     def signature(self, case, why):
